@@ -2,26 +2,30 @@
 from .sut import compare_probs, describe, TOL
 
 
-def input_class(F):
-    if F.get("clean"):
-        return "clean"
+def input_class(F, propagate=False):
+    """syntactic/semantic input class used to key known findings.  propagate=True: evidence propagation is active
+    (CLI default, propagate_evidence option), which injects constants for evidence-determined nodes."""
     cls = []
-    if F.get("contra_cyc"):
+    if F.get("contra_cyc") or (propagate and F.get("ev_reaches_cycle")):
         cls.append("contra_rec")
     if F.get("neg_cyclic_in_cycle"):
         cls.append("neg_cyclic_in_cycle")
-    return "+".join(cls) or "clean"
+    if cls:
+        return "+".join(cls)
+    if F.get("contra_any"):
+        return "contra"          # a deterministically FALSE body outside any cycle
+    return "clean"
 
 
-def judge(o, R, F, tol=TOL, allow_negcycle=False):
+def judge(o, R, F, tol=TOL, allow_negcycle=False, propagate=False):
     """o: SUT outcome, R: worlds.Ref, F: feature dict.  Returns None (agrees) or (signature, detail)."""
-    cls = input_class(F)
+    cls = input_class(F, propagate)
     if o["kind"] == "ok":
         if R.status == "inconsistent":
             return ("answered-despite-inconsistent-evidence", "reference P(evidence)=0 but problog answered %s" % describe(o))
         d = compare_probs(o["result"], R.probs, tol)
         if d is not None:
-            return (d[0] if cls == "clean" else "%s|%s" % (d[0], cls), d[1])
+            return (d[0] if cls in ("clean", "contra") else "%s|%s" % (d[0], cls), d[1])
         return None
     if o["kind"] == "inconsistent":
         if R.status == "inconsistent":
